@@ -16,7 +16,7 @@ LazyTable MC  spec/LazyTable.tla: builder statements of _maybe_precompute() / sc
               complete operations on the same object, results are compared with the sequential results and the
               observations are judged by spec/Trace_LazyTable.tla (invariants and step relation of LazyTable).
 """
-import os, sys, importlib.util, multiprocessing as mp, time, concurrent.futures as cf
+import os, sys, importlib.util, multiprocessing as mp, time, threading, concurrent.futures as cf
 
 from ..common import SPEC, Scratch, rng, MachineryError
 from ..report import Report
@@ -44,9 +44,9 @@ def _instances(tier):
     return [(2, 2, 1, True), (2, 1, 2, True), (2, 2, 2, False), (3, 2, 1, False)]
 
 
-LT_BASE = "CONSTANTS N = %d  EARLY_PUBLISH = %s  SPLIT_ASSIGN = %s  TORN_READ = %s\nSPECIFICATION Spec\n"
+LT_BASE = "CONSTANTS N = %d  EARLY_PUBLISH = %s  SPLIT_ASSIGN = %s  TORN_READ = %s  LOCKED = \"%s\"\nSPECIFICATION Spec\n"
 LT_INV = ("INVARIANTS TypeOK PubEmptyOrComplete CoordsOldOrNew AloneOK LocIsPrefix ReaderOK FinalOK\n"
-          "PROPERTIES StepsAreEffects BuilderFinishes\n")
+          "PROPERTIES StepsAreEffects BuilderFinishes NeverBlockedForever\n")
 
 
 def _all_tlc_runs(tier, wd):
@@ -64,10 +64,12 @@ def _all_tlc_runs(tier, wd):
     jobs["rw_bad1"] = (RW_MC, _rw_cfg(2, 2, 1, invariants="Mutex", props="", nxt="BadNextNoExcl"), os.path.join(wd, "rw_bad1"), dict(small))
     jobs["rw_bad2"] = (RW_MC, _rw_cfg(2, 2, 1, invariants="TypeOK", props="", nxt="BadNextNoQueueRel"), os.path.join(wd, "rw_bad2"), dict(small, deadlock=True))
     N = 8 if tier == "thorough" else 5
-    jobs["lt"] = (LT_MC, LT_BASE % (N, "FALSE", "FALSE", "FALSE") + LT_INV, os.path.join(wd, "lt"), dict(small, deadlock=True, coverage=True))
-    jobs["lt_EARLY_PUBLISH"] = (LT_MC, LT_BASE % (N, "TRUE", "FALSE", "FALSE") + "INVARIANTS ReaderOK\n", os.path.join(wd, "lt_e"), dict(small, deadlock=True))
-    jobs["lt_SPLIT_ASSIGN"] = (LT_MC, LT_BASE % (N, "FALSE", "TRUE", "FALSE") + "INVARIANTS ReaderOK\n", os.path.join(wd, "lt_s"), dict(small, deadlock=True))
-    jobs["lt_TORN_READ"] = (LT_MC, LT_BASE % (N, "FALSE", "FALSE", "TRUE") + "INVARIANTS ReaderOK\n", os.path.join(wd, "lt_t"), dict(small, deadlock=True))
+    jobs["lt"] = (LT_MC, LT_BASE % (N, "FALSE", "FALSE", "FALSE", "none") + LT_INV, os.path.join(wd, "lt"), dict(small, deadlock=True, coverage=True))
+    jobs["lt_EARLY_PUBLISH"] = (LT_MC, LT_BASE % (N, "TRUE", "FALSE", "FALSE", "none") + "INVARIANTS ReaderOK\n", os.path.join(wd, "lt_e"), dict(small, deadlock=True))
+    jobs["lt_SPLIT_ASSIGN"] = (LT_MC, LT_BASE % (N, "FALSE", "TRUE", "FALSE", "none") + "INVARIANTS ReaderOK\n", os.path.join(wd, "lt_s"), dict(small, deadlock=True))
+    jobs["lt_TORN_READ"] = (LT_MC, LT_BASE % (N, "FALSE", "FALSE", "TRUE", "none") + "INVARIANTS ReaderOK\n", os.path.join(wd, "lt_t"), dict(small, deadlock=True))
+    jobs["lt_lock_finally"] = (LT_MC, LT_BASE % (N, "FALSE", "FALSE", "FALSE", "finally") + LT_INV, os.path.join(wd, "lt_lf"), dict(small, deadlock=True))
+    jobs["lt_lock_nofinally"] = (LT_MC, LT_BASE % (N, "FALSE", "FALSE", "FALSE", "nofinally") + "PROPERTIES NeverBlockedForever\n", os.path.join(wd, "lt_ln"), dict(small, deadlock=True))
     out = {}
     with cf.ThreadPoolExecutor(max_workers=6) as ex:
         futs = {k: ex.submit(tlc.run, m, cfg, d, **kw) for k, (m, cfg, d, kw) in jobs.items()}
@@ -319,6 +321,10 @@ def _ctx(name):
     c.name, c.ec, c.es = name, ec, es
     c.libdir = os.path.dirname(os.path.abspath(ec.__file__)) + os.sep
     r = rng("c20/" + name)
+    c.fam = "edwards" if name.startswith("ed") else "weierstrass"
+    if c.fam == "edwards":
+        return _ctx_edwards(c, r)
+    c.cls, c.pfx = ec.PointJacobi, "_PointJacobi"
     if name == "tiny":
         c.curve = ec.CurveFp(17, 2, 2, 1)
         c.gx, c.gy, c.n = 5, 1, 19
@@ -331,6 +337,8 @@ def _ctx(name):
         d = r.randrange(2, c.n)
     c.p = c.curve.p()
     c.make_gen = lambda: ec.PointJacobi(c.curve, c.gx, c.gy, 1, c.n, generator=True)
+    # generator=True without an order: `point * k` fails with AssertionError (documented precondition of the table)
+    c.make_bad = lambda: ec.PointJacobi(c.curve, c.gx, c.gy, 1, None, generator=True)
     ref = c.make_gen()
     q = ref * d
     c.ref = ref
@@ -367,15 +375,62 @@ def _ctx(name):
     return c
 
 
+def _ctx_edwards(c, r):
+    """twisted Edwards points (PointEdwards: Ed25519 / Ed448 keys): the same lazy table and in-place rescaling"""
+    from register_crypto_plugin.ecdsa import eddsa
+    ec = c.ec
+    c.cls, c.pfx = ec.PointEdwards, "_PointEdwards"
+    g = eddsa.generator_ed25519 if c.name == "ed25519" else eddsa.generator_ed448
+    c.curve, c.n = g.curve(), int(g.order())
+    c.p = p = c.curve.p()
+    c.gx, c.gy = int(g.x()), int(g.y())
+    c.make_gen = lambda: ec.PointEdwards(c.curve, c.gx, c.gy, 1, c.gx * c.gy % p, c.n, generator=True)
+    c.make_bad = lambda: ec.PointEdwards(c.curve, c.gx, c.gy, 1, c.gx * c.gy % p, None, generator=True)
+    ref = c.make_gen()
+    d = r.randrange(2, c.n)
+    q = ref * d
+    c.ref = ref
+    c.table = list(ref._PointEdwards__precompute)
+    c.N = len(c.table)
+    c.ks = [2, 3, c.n - 1, c.n + 1, (1 << 250) // 3, r.randrange(1, c.n), r.randrange(1, c.n)]
+    c.ks_full = c.ks + [1 << j for j in range(0, c.N - 3, 3)]
+    c.qx, c.qy = int(q.x()), int(q.y())
+    z = r.randrange(2, p)
+    c.qz = z
+
+    def ext(x, y, zz, gen=False):
+        return ec.PointEdwards(c.curve, x * zz % p, y * zz % p, zz, x * y * zz % p, c.n, generator=gen)
+    c.make_q = lambda zz=None: ext(c.qx, c.qy, zz or z)
+    zj = r.randrange(2, p)
+    c.make_jgen = lambda: ext(c.gx, c.gy, zj, True)
+    o = ref * 3
+    ox, oy, zo = int(o.x()), int(o.y()), r.randrange(2, p)
+    c.make_other = lambda: ext(ox, oy, zo)
+    c.gaff = ext(c.gx, c.gy, 1)
+    c.qaff = ext(c.qx, c.qy, 1)
+    c.kA = r.randrange(2, c.n)
+    c.expected = {}
+    _CTX[c.name] = c
+    return c
+
+
 def _make(c, mode):
     return {"table": c.make_gen, "scale": c.make_q, "jtable": c.make_jgen}[mode]()
+
+
+def _a_op(c, mode):
+    """thread A's operation: a multiplication (builds the table / rescales on the way); PointEdwards.__mul__ does not
+    rescale, there A calls scale() itself"""
+    if c.fam == "edwards" and mode == "scale":
+        return lambda o: o.scale()
+    return lambda o: o * c.kA
 
 
 def _canon(c, v):
     ec = c.ec
     if v is ec.INFINITY:
         return ("inf",)
-    if isinstance(v, (ec.PointJacobi, ec.Point)):
+    if isinstance(v, (ec.PointJacobi, ec.Point, ec.PointEdwards)):
         return ("pt", int(v.x()), int(v.y()))
     if isinstance(v, bool):
         return ("b", v)
@@ -391,6 +446,23 @@ def _ops(c, mode, full):
     ec, es = c.ec, c.es
     ks = c.ks_full if full else c.ks
     X = {"table": "G", "scale": "Q", "jtable": "J"}[mode]
+    if c.fam == "edwards":
+        ops = [(X + ".x()", lambda o: o.x()), (X + ".y()", lambda o: o.y()), ("other.y()", lambda o: c.make_other().y()),
+               (X + " == affine " + X, lambda o: o == (c.gaff if mode != "scale" else c.qaff)),
+               (X + " == the other base point", lambda o: o == (c.qaff if mode != "scale" else c.gaff)),
+               (X + " + P", lambda o: o + (c.make_q() if mode != "scale" else c.ref)),
+               (X + ".double()", lambda o: o.double())]
+        if mode == "scale":
+            ops += [("3*Q", lambda o: o * 3), ("k*Q", lambda o: o * c.ks[-1]),
+                    ("Q.to_bytes()", lambda o: o.to_bytes()), ("Q.scale()", lambda o: o.scale()),
+                    ("Q.x() again", lambda o: o.x()), ("Q.y() again", lambda o: o.y()), ("3*Q again", lambda o: o * 3)]
+        else:
+            for k in ks:
+                ops.append(("k*" + X, (lambda o, k=k: o * k)))
+            ops += [("k*%s (rmul)" % X, lambda o: c.kA * o), (X + ".to_bytes()", lambda o: o.to_bytes()),
+                    (X + " == fresh", lambda o: o == c.make_gen())]
+        ops += [("other.to_bytes()", lambda o: c.make_other().to_bytes()), ("other.x()", lambda o: c.make_other().x())]
+        return ops
     ops = [(X + ".x()", lambda o: o.x()), (X + ".y()", lambda o: o.y()),
            (X + ".to_bytes()", lambda o: o.to_bytes("uncompressed")), (X + ".to_bytes(compressed)", lambda o: o.to_bytes("compressed")),
            ("other.y()", lambda o: c.make_other().y())]
@@ -443,29 +515,85 @@ def _ops(c, mode, full):
     return ops
 
 
-def _run_ops(c, ops, obj):
-    out = []
+def _run_ops(c, ops, obj, out=None, dur=None):
+    out = [] if out is None else out
     for name, fn in ops:
+        t0 = time.time()
         try:
             out.append(_canon(c, fn(obj)))
         except Exception as e:          # the sequential run does not raise, so this is a difference
             out.append(("raise", type(e).__name__, str(e)[:80]))
+        if dur is not None:
+            dur.append(time.time() - t0)
     return out
 
 
+_ADAPT = {"blocked": 0}     # per worker process: how often a B was found blocked (shortens the waits)
+
+
+class BRun:
+    """Thread B: the complete operations run in a helper thread; the caller never waits unboundedly.
+    wait(stall): True when all operations are done; False when NO operation completed for `stall` seconds
+    (B is blocked on something, or extremely slow - the caller must tolerate both)."""
+
+    def __init__(self, c, ops, obj):
+        self.out, self.done, self.n = [], threading.Event(), len(ops)
+        self.t = threading.Thread(target=self._main, args=(c, ops, obj), daemon=True)
+        self.t.start()
+
+    def _main(self, c, ops, obj):
+        try:
+            _run_ops(c, ops, obj, self.out)
+        finally:
+            self.done.set()
+
+    def wait(self, stall):
+        while True:
+            n = len(self.out)
+            if self.done.wait(stall):
+                return True
+            if len(self.out) == n:
+                return False
+
+    def results(self):
+        got = list(self.out)
+        return got + [("blocked",)] * (self.n - len(got))
+
+
+def _stalls(c, key):
+    """(short, long) waits derived from the slowest single operation of the sequential run: `short` decides that B is
+    blocked while A is parked (a wrong guess only means that A and B then really run side by side), `long` that B or A
+    never finishes once nothing is parked any more"""
+    mx = c.expected[key][2]
+    short = max(0.25, 10 * mx) if _ADAPT["blocked"] < 3 else max(0.08, 5 * mx)
+    return short, max(3.0, 60 * mx) if _ADAPT["blocked"] < 6 else max(1.0, 25 * mx)
+
+
 def _peek(c, obj, loc):
-    tab = obj._PointJacobi__precompute
+    tab = getattr(obj, c.pfx + "__precompute")
     L = len(tab)
-    X, Y, Z = obj._PointJacobi__coords
-    xr, yr = (c.gx, c.gy) if obj._PointJacobi__generator else (c.qx, c.qy)
+    co = getattr(obj, c.pfx + "__coords")
+    xr, yr = (c.gx, c.gy) if getattr(obj, c.pfx + "__generator") else (c.qx, c.qy)
     p = c.p
-    return {"len": L, "ok": list(tab) == c.table[:L], "same": loc is not None and tab is loc, "z1": bool(Z == 1),
-            "co_ok": bool(Z % p != 0 and (X - xr * Z * Z) % p == 0 and (Y - yr * Z * Z * Z) % p == 0)}
+    try:
+        if c.fam == "edwards":
+            X, Y, Z, T = co
+            ok = bool(Z % p != 0 and (X - xr * Z) % p == 0 and (Y - yr * Z) % p == 0 and (T * Z - X * Y) % p == 0)
+        else:
+            X, Y, Z = co
+            ok = bool(Z % p != 0 and (X - xr * Z * Z) % p == 0 and (Y - yr * Z * Z * Z) % p == 0)
+        z1 = bool(Z == 1)
+    except Exception:
+        ok, z1 = False, False
+    try:
+        tab_ok = list(tab) == c.table[:L]
+    except Exception:
+        tab_ok = False
+    return {"len": L, "ok": tab_ok, "same": loc is not None and tab is loc, "z1": z1, "co_ok": ok}
 
 
 def _codes(c, mode):
-    PJ = c.ec.PointJacobi
-    return [PJ.scale.__code__] if mode == "scale" else [PJ._maybe_precompute.__code__]
+    return [c.cls.scale.__code__] if mode == "scale" else [c.cls._maybe_precompute.__code__]
 
 
 def _count_events(name, mode, opcode, deep):
@@ -473,11 +601,13 @@ def _count_events(name, mode, opcode, deep):
     # CPython 3.12 delivers 'opcode' events for a code object only from the second traced execution on
     # (the instrumentation is installed by the first one): repeat until the count is stable
     counts = []
+    aop = _a_op(c, mode)
     for _ in range(5):
         obj = _make(c, mode)
-        p = sched.Preempter(lambda: obj * c.kA, _codes(c, mode), obj, None, opcode, c.libdir if deep else None)
+        p = sched.Preempter(lambda: aop(obj), _codes(c, mode), obj, None, opcode, c.libdir if deep else None)
         p.run_to_stop()
-        p.run_to_end()
+        if not p.run_to_end() or p.hung:
+            raise MachineryError("the sequential run of %s/%s does not terminate" % (name, mode))
         if p.error:
             raise MachineryError("sequential run raised %r" % p.error)
         counts.append(p.count)
@@ -491,54 +621,163 @@ def _count_events(name, mode, opcode, deep):
 END = 10 ** 8       # pre-emption point "after A's last event"
 
 
-def _gname(name, mode, opcode, deep):
-    return "%s/%s/%s%s" % (name, mode, "opcode" if opcode else "line", "+callees" if deep else "")
+def _gname(name, mode, opcode, deep, kind="pt"):
+    return "%s/%s/%s%s%s" % (name, mode, "opcode" if opcode else "line", "+callees" if deep else "", "" if kind == "pt" else "/" + kind)
+
+
+def _expect(c, mode, full, ops):
+    key = (mode, full)
+    if key not in c.expected:
+        # "one after another": B's operations before A's operation, or after it
+        dur = []
+        first = _run_ops(c, ops, _make(c, mode), dur=dur)
+        after_a = _make(c, mode)
+        res_a = _canon(c, _a_op(c, mode)(after_a))
+        c.expected[key] = ([(x, y) for x, y in zip(first, _run_ops(c, ops, after_a))], res_a, max(dur + [0.001]))
+    return key, c.expected[key]
+
+
+def _event(c, task, **kw):
+    name, mode, kind, opcode, deep = task["name"], task["mode"], task["kind"], task["opcode"], task["deep"]
+    e = {"tid": task["tid"], "grp": task["grp"], "op": kind, "mode": mode, "idx": task["idx"], "adj": not deep, "n": c.N}
+    e.update(kw)
+    e.update({"_gran": "opcode" if opcode else "line", "_deep": bool(deep), "_curve": name, "_kind": kind,
+              "_g": _gname(name, mode, opcode, deep, kind)})
+    return e
 
 
 def _point(task):
-    """one pre-emption point -> one event"""
-    name, mode, opcode, deep, full, idx, grp, tid, K = task
-    c = _ctx(name)
-    key = (mode, full)
+    """one pre-emption point -> one event.  Never hangs: thread B runs in a helper thread.  blocked = 0: B completed while
+    A was parked; 1: B made no progress while A was parked and completed after A had been resumed (it waited for something
+    A holds: legitimate serialisation); 2: B (or A) never completed although nothing was parked any more."""
+    c = _ctx(task["name"])
+    if task["kind"] != "pt":
+        return _interrupted(c, task)
+    mode, full, idx, opcode, deep = task["mode"], task["full"], task["idx"], task["opcode"], task["deep"]
     ops = _ops(c, mode, full)
-    if key not in c.expected:
-        # "one after another": B's operations before A's operation, or after it
-        first = _run_ops(c, ops, _make(c, mode))
-        after_a = _make(c, mode)
-        res_a = _canon(c, after_a * c.kA)
-        c.expected[key] = ([(x, y) for x, y in zip(first, _run_ops(c, ops, after_a))], res_a)
-    exp, expA = c.expected[key]
+    key, (exp, expA, _) = _expect(c, mode, full, ops)
+    short, long_ = _stalls(c, key)
     obj = _make(c, mode)
-    P = sched.Preempter(lambda: obj * c.kA, _codes(c, mode), obj, idx, opcode, c.libdir if deep else None)
-    stopped = P.run_to_stop()
+    aop = _a_op(c, mode)
+    P = sched.Preempter(lambda: aop(obj), _codes(c, mode), obj, idx, opcode, c.libdir if deep else None)
+    stopped = P.run_to_stop(max(20.0, long_))
+    blocked, who = 0, []
+    # (K is the event count of a sequential run.  A run may take a few events more or less when the code keeps
+    #  history-dependent state, e.g. a cache: then A is simply stopped a little earlier/later, or is already through.)
+    loc = P.frame_locals.get("precompute") if stopped and mode != "scale" else None
+    if not stopped and not P.hung and mode != "scale":
+        loc = getattr(obj, c.pfx + "__precompute")  # A is through: its list is the published one
     try:
-        # (K is the event count of a sequential run.  A run may take a few events more or less when the code keeps
-        #  history-dependent state, e.g. a cache: then A is simply stopped a little earlier/later, or is already through.)
-        loc = P.frame_locals.get("precompute") if stopped and mode != "scale" else None
-        if not stopped and mode != "scale":
-            loc = obj._PointJacobi__precompute          # A is through: its list is the published one
-        L = len(loc) if loc is not None else 0          # now: A goes on appending to this very list later
+        L = len(loc) if loc is not None else 0      # now: A goes on appending to this very list later
         loc_ok = loc is None or list(loc) == c.table[:L]
-        before = _peek(c, obj, loc)
-        got = _run_ops(c, ops, obj)
-        bad = [ops[i][0] for i in range(len(ops)) if got[i] not in exp[i]]
-        after = _peek(c, obj, loc)
-    finally:
-        P.run_to_end()                                  # thread A is never left parked
+    except Exception:
+        L, loc_ok = 0, False
+    before = _peek(c, obj, loc)
+    B = BRun(c, ops, obj)
+    if not B.wait(short if stopped else long_):
+        blocked = 1                                 # B does not get on while A is parked (or A hangs)
+    a_done = P.run_to_end(long_ if blocked else max(20.0, long_))      # thread A is never left parked
+    if blocked:
+        _ADAPT["blocked"] += 1
+        if not B.wait(long_):
+            blocked = 2
+            who.append("B")
+    if not a_done:
+        blocked = 2
+        who.append("A")
+    got = B.results()
+    bad = [ops[i][0] for i in range(len(ops)) if got[i] not in exp[i]]
+    after = _peek(c, obj, loc)
     fbad = []
-    if P.error is not None or _canon(c, P.result) != expA:
-        fbad.append("A's own %d*X" % c.kA if c.name == "tiny" else "A's own k*X")
-    got2 = _run_ops(c, ops, obj)
+    if a_done and (P.error is not None or _canon(c, P.result) != expA):
+        fbad.append("A's own operation")
+    B2 = BRun(c, ops, obj)
+    if not B2.wait(long_):
+        blocked = 2
+        who.append("B after both")
+    got2 = B2.results()
     fbad += [ops[i][0] for i in range(len(ops)) if got2[i] not in exp[i]]
     fin = _peek(c, obj, None)
-    return {"tid": tid, "grp": grp, "op": "pt", "mode": mode, "idx": idx, "adj": not deep, "n": c.N,
-            "loc_len": L, "loc_ok": loc_ok,
-            "pub_len": before["len"], "pub_ok": before["ok"], "same": before["same"], "z1": before["z1"], "co_ok": before["co_ok"],
-            "b_len": after["len"], "b_ok": after["ok"], "b_z1": after["z1"], "b_co_ok": after["co_ok"],
-            "res": len(ops), "res_bad": len(bad),
-            "f_len": fin["len"], "f_ok": fin["ok"], "f_z1": fin["z1"], "f_co_ok": fin["co_ok"], "f_res_bad": len(fbad),
-            "_line": P.lineno if stopped else 0, "_in": P.where if stopped else "", "_stopped": stopped, "_bad": bad[:5], "_fbad": fbad[:5],
-            "_gran": "opcode" if opcode else "line", "_deep": bool(deep), "_curve": name, "_g": _gname(name, mode, opcode, deep)}
+    return _event(c, task, loc_len=L, loc_ok=loc_ok,
+                  pub_len=before["len"], pub_ok=before["ok"], same=before["same"], z1=before["z1"], co_ok=before["co_ok"],
+                  b_len=after["len"], b_ok=after["ok"], b_z1=after["z1"], b_co_ok=after["co_ok"],
+                  res=len(ops), res_bad=len(bad), blocked=blocked,
+                  f_len=fin["len"], f_ok=fin["ok"], f_z1=fin["z1"], f_co_ok=fin["co_ok"], f_res_bad=len(fbad),
+                  _line=P.lineno if stopped else 0, _in=P.where if stopped else "", _stopped=stopped, _bad=bad[:5], _fbad=fbad[:5],
+                  _who=who)
+
+
+def _interrupted(c, task):
+    """error paths.  kind "intr": thread A's operation gets an exception (raised by the trace function, as a
+    KeyboardInterrupt would be) at trace event idx of _maybe_precompute()/scale(); kind "fail": A's operation is
+    `generator-without-order * 5`, which fails with AssertionError inside the table construction.  Afterwards thread B's
+    complete operations on the SAME object, then on a FRESH object of the same kind, must terminate and give the
+    sequential results; no partial table may stay behind.  Same projection as a "pt" event: the state left behind by A
+    (loc_*, pub_*, z1, co_ok), after B on the same object (b_*), after B on the fresh object (f_*)."""
+    mode, full, idx, opcode, deep, kind = task["mode"], task["full"], task["idx"], task["opcode"], task["deep"], task["kind"]
+    ops = _ops(c, mode, full)
+    key, (exp, expA, _) = _expect(c, mode, full, ops)
+    short, long_ = _stalls(c, key)
+    blocked, who = 0, []
+    lineno, where, stopped, loc = 0, "", False, None
+    if kind == "fail":
+        bad_obj = c.make_bad()
+        out = {}
+
+        def body():
+            try:
+                out["r"] = bad_obj * 5
+            except BaseException as e:
+                out["e"] = type(e).__name__
+        t = threading.Thread(target=body, daemon=True)
+        t.start()
+        t.join(max(20.0, long_))
+        if t.is_alive():
+            blocked, who = 2, ["A"]
+        obj = _make(c, mode)                        # B works on a fresh valid generator
+        a_exc = out.get("e", "")
+    else:
+        obj = _make(c, mode)
+        aop = _a_op(c, mode)
+        P = sched.Preempter(lambda: aop(obj), _codes(c, mode), obj, idx, opcode, c.libdir if deep else None, interrupt=True)
+        P.run_to_stop(max(20.0, long_))
+        if P.hung:
+            blocked, who = 2, ["A"]                 # A neither got to the event nor finished (e.g. waits for a lock)
+        stopped = P.stopped
+        lineno, where = P.lineno, P.where
+        a_exc = type(P.error).__name__ if P.error is not None else ""
+        loc = P.frame_locals.get("precompute") if stopped and mode != "scale" and P.frame_locals else None
+        if not stopped and not P.hung and mode != "scale":
+            loc = getattr(obj, c.pfx + "__precompute")
+    try:
+        L = len(loc) if loc is not None else 0
+        loc_ok = loc is None or list(loc) == c.table[:L]
+    except Exception:
+        L, loc_ok = 0, False
+    before = _peek(c, obj, loc)
+    B = BRun(c, ops, obj)
+    if not B.wait(long_ if _ADAPT["blocked"] < 3 else short * 4):
+        blocked = 2
+        who.append("B on the same object" if kind == "intr" else "B on a fresh generator")
+        _ADAPT["blocked"] += 1
+    got = B.results()
+    bad = [ops[i][0] for i in range(len(ops)) if got[i] not in exp[i]]
+    after = _peek(c, obj, loc)
+    fresh = _make(c, mode)
+    B2 = BRun(c, ops, fresh)
+    if not B2.wait(long_ if _ADAPT["blocked"] < 3 else short * 4):
+        blocked = 2
+        who.append("B on a fresh object")
+        _ADAPT["blocked"] += 1
+    got2 = B2.results()
+    fbad = [ops[i][0] for i in range(len(ops)) if got2[i] not in exp[i]]
+    fin = _peek(c, fresh, None)
+    return _event(c, task, loc_len=L, loc_ok=loc_ok,
+                  pub_len=before["len"], pub_ok=before["ok"], same=before["same"], z1=before["z1"], co_ok=before["co_ok"],
+                  b_len=after["len"], b_ok=after["ok"], b_z1=after["z1"], b_co_ok=after["co_ok"],
+                  res=len(ops), res_bad=len(bad), blocked=blocked,
+                  f_len=fin["len"], f_ok=fin["ok"], f_z1=fin["z1"], f_co_ok=fin["co_ok"], f_res_bad=len(fbad),
+                  _line=lineno, _in=where, _stopped=stopped, _bad=bad[:5], _fbad=fbad[:5], _who=who, _a_exc=a_exc)
 
 
 def _lazy_part(rep, tier, wd, J):
@@ -550,77 +789,126 @@ def _lazy_part(rep, tier, wd, J):
     elif not res.ok:
         raise MachineryError("TLC failed on MC_LazyTable:\n" + res.clean()[-3000:])
     rep.add_mc("MC_LazyTable N=%d: table empty-or-complete, coordinates old-or-new, reader result = sequential result, "
-               "publication only when complete, every builder statement is an allowed effect, builder finishes" % N, res, {"N": N})
+               "publication only when complete, every builder statement is an allowed effect, builder finishes or is "
+               "interrupted at any statement, nobody is locked out for ever" % N, res, {"N": N})
     for sw in ("EARLY_PUBLISH", "SPLIT_ASSIGN", "TORN_READ"):
         if "ReaderOK" not in J["lt_" + sw].violated:
             raise MachineryError("self-test: LazyTable with %s = TRUE was not refuted (ReaderOK)" % sw)
-    rep.cov["parts"]["selftest LazyTable variants"] = ("EARLY_PUBLISH, SPLIT_ASSIGN and TORN_READ each refuted by TLC (ReaderOK: the reader sees a partial table / a mixed triple / "
-                                                         "a table built from a torn read of the coordinates)")
+    r = tlc.require_ok(J["lt_lock_finally"], "MC_LazyTable LOCKED=finally")
+    rep.add_mc("MC_LazyTable N=%d, construction serialised by a lock released on every exit: same properties" % N, r, {"N": N, "LOCKED": "finally"})
+    r = J["lt_lock_nofinally"]
+    if r.ok or "NeverBlockedForever" not in r.out:
+        raise MachineryError("self-test: LazyTable with a lock that is not released when the construction is interrupted was not refuted")
+    rep.cov["parts"]["selftest LazyTable variants"] = (
+        "EARLY_PUBLISH, SPLIT_ASSIGN and TORN_READ each refuted by TLC (ReaderOK: the reader sees a partial table / a mixed triple / "
+        "a table built from a torn read of the coordinates); LOCKED=nofinally refuted (NeverBlockedForever: an interrupted "
+        "construction keeps the lock)")
 
     # ---- C->S: record
     thorough = tier == "thorough"
-    # (curve, scenario, byte-code level, callees traced too, all multipliers, points: None = every one / number to sample)
+    # (curve, scenario, kind, byte-code level, callees traced too, all multipliers, points: None = every one / number to sample)
     plan = []
     for mode in ("table", "scale", "jtable"):
-        plan += [("tiny", mode, False, True, True, None), ("tiny", mode, True, True, True, None)]
-    plan += [("nist256p", "table", False, False, thorough, None),
-             ("nist256p", "table", False, True, False, None if thorough else 150),
-             ("nist256p", "scale", False, True, True, None), ("nist256p", "scale", True, True, True, None),
-             ("nist256p", "jtable", False, True, False, None if thorough else 120)]
+        plan += [("tiny", mode, "pt", False, True, True, None), ("tiny", mode, "pt", True, True, True, None),
+                 ("tiny", mode, "intr", False, True, True, None)]
+    plan += [("nist256p", "table", "pt", False, False, thorough, None),
+             ("nist256p", "table", "pt", False, True, False, None if thorough else 150),
+             ("nist256p", "scale", "pt", False, True, True, None), ("nist256p", "scale", "pt", True, True, True, None),
+             ("nist256p", "jtable", "pt", False, True, False, None if thorough else 120),
+             ("nist256p", "table", "intr", False, False, False, None if thorough else 60),
+             ("nist256p", "scale", "intr", False, True, True, None),
+             # twisted Edwards points (Ed25519 keys): the same two mechanisms in class PointEdwards
+             ("ed25519", "scale", "pt", False, True, True, None), ("ed25519", "scale", "pt", True, True, True, None),
+             ("ed25519", "table", "pt", False, False, False, None if thorough else 60),
+             ("ed25519", "scale", "intr", False, True, True, None),
+             ("ed25519", "table", "intr", False, False, False, 300 if thorough else 20)]
     if thorough:
-        plan.append(("nist256p", "table", True, False, False, None))
-        plan.append(("nist256p", "jtable", True, False, False, 2000))
+        plan.append(("nist256p", "table", "pt", True, False, False, None))
+        plan.append(("nist256p", "jtable", "pt", True, False, False, 2000))
+        plan.append(("ed25519", "table", "pt", False, True, False, 1500))
+        plan.append(("ed448", "scale", "pt", False, True, True, None))
+    curves = []
+    for p_ in plan:
+        if p_[0] not in curves:
+            curves.append(p_[0])
     r = rng("c20/points")
     tasks, tid, groups = [], 0, {}
     CH = 100
-    for (name, mode, opcode, deep, full, sample) in plan:
+    for (name, mode, kind, opcode, deep, full, sample) in plan:
         K = _count_events(name, mode, opcode, deep)
-        gname = _gname(name, mode, opcode, deep)
+        gname = _gname(name, mode, opcode, deep, kind)
         # some points past the sequential count: a run whose path is longer (history-dependent state in a callee)
         # is then still stopped near its end, a run that is through is recorded as "A has finished"
         K2 = K + (min(128, max(16, K // 4)) if deep else 1)
         idxs = list(range(K2 + 1))
         if sample is not None and sample < K:       # the first and the last events (publication) always, the rest sampled
-            idxs = sorted(x for x in set(range(0, 150)) | set(range(K - 60, K2 + 1)) | set(r.sample(range(K + 1), sample)) if 0 <= x <= K2)
-        idxs.append(END)                            # ... and one run in which A is certainly through
+            head, tail = (150, 60) if kind == "pt" else (30, 12)
+            idxs = sorted(x for x in set(range(0, head)) | set(range(K - tail, K2 + 1)) | set(r.sample(range(K + 1), sample)) if 0 <= x <= K2)
+        if kind == "pt":
+            idxs.append(END)                        # ... and one run in which A is certainly through
         groups[gname] = {"preemption_points_total": K + 1, "points_run": len(idxs), "B_operations_per_point": 0}
         for j, idx in enumerate(idxs):
             ch = j // CH
             tid += 1
-            tasks.append((name, mode, opcode, deep, full, idx, "%s/%d" % (gname, ch), tid, K))
+            t = {"name": name, "mode": mode, "kind": kind, "opcode": opcode, "deep": deep, "full": full, "idx": idx,
+                 "grp": "%s/%d" % (gname, ch), "tid": tid, "K": K, "g": gname}
+            tasks.append(t)
             if j % CH == 0 and j > 0:       # chunk boundary: the event is also the last one of the previous chunk
                 tid += 1
-                tasks.append((name, mode, opcode, deep, full, idx, "%s/%d" % (gname, ch - 1), -tid, K))
-    # duplicates (negative marker) are computed once
-    uniq = [t for t in tasks if t[7] > 0]
+                tasks.append(dict(t, grp="%s/%d" % (gname, ch - 1), tid=-tid))
+    for name in curves:                     # a multiplication that fails its precondition inside the table construction
+        if name == "ed448":
+            continue
+        tid += 1
+        gname = _gname(name, "table", False, False, "fail")
+        groups[gname] = {"preemption_points_total": 1, "points_run": 1, "B_operations_per_point": 0}
+        tasks.append({"name": name, "mode": "table", "kind": "fail", "opcode": False, "deep": False, "full": False, "idx": 0,
+                      "grp": gname, "tid": tid, "K": 0, "g": gname})
+    # duplicates (negative marker) are computed once.  Error-path runs get processes of their own: what an abandoned
+    # operation leaves behind in the library's module state must not leak into the interleaving runs.
+    uniq = [t for t in tasks if t["tid"] > 0]
+    heavy = lambda t: (t["name"] == "tiny", -t["idx"])
     t0 = time.time()
-    evs = _pmap(_point, sorted(uniq, key=lambda t: (t[0] != "nist256p", -t[5])), 4, "recording of pre-emption points")
+    evs = _pmap(_point, sorted([t for t in uniq if t["kind"] == "pt"], key=heavy), 4, "recording of pre-emption points")
+    evs += _pmap(_point, sorted([t for t in uniq if t["kind"] != "pt"], key=lambda t: (t["kind"] != "fail",) + heavy(t)), 2,
+                 "recording of interrupted operations")
     rec_wall = time.time() - t0
     by_key = {(e["_g"], e["idx"]): e for e in evs}
     events = []
-    for (name, mode, opcode, deep, full, idx, grp, t, _K) in tasks:
-        e = by_key[(_gname(name, mode, opcode, deep), idx)]
-        if t < 0:
-            e = dict(e, tid=-t, grp=grp, _dup=True)
+    for t in tasks:
+        e = by_key[(t["g"], t["idx"])]
+        if t["tid"] < 0:
+            e = dict(e, tid=-t["tid"], grp=t["grp"], _dup=True)
         events.append(e)
     for e in evs:
         g = groups[e["_g"]]
         g["B_operations_per_point"] = e["res"]
         g.setdefault("table_len_seen_by_B", set()).add(e["pub_len"])
         g.setdefault("coords_form_seen_by_B", set()).add("affine" if e["z1"] else "jacobian")
+        g.setdefault("B_waited_for_A", 0)
+        g["B_waited_for_A"] += 1 if e["blocked"] == 1 else 0
         if e["_in"]:
             g.setdefault("stopped_in", set()).add(e["_in"])
+        if e.get("_a_exc"):
+            g.setdefault("A_ended_with", set()).add(e["_a_exc"])
     for g in groups.values():
-        for k in ("table_len_seen_by_B", "coords_form_seen_by_B", "stopped_in"):
+        for k in ("table_len_seen_by_B", "coords_form_seen_by_B", "stopped_in", "A_ended_with"):
             g[k] = sorted(g.get(k, ()))
-    # vacuity: A was really stopped before and after its publication / assignment
+    # vacuity (judged below, only when the run is otherwise clean): A was really stopped before and after its
+    # publication / assignment, inside callees, and really interrupted
+    vacuity = []
     for gname, g in groups.items():
-        if ("/table/" in gname or "/jtable/" in gname) and len(g["table_len_seen_by_B"]) < 2:
-            raise MachineryError("vacuity: B never saw both the empty and the complete table in %s" % gname)
-        if "/scale/" in gname and len(g["coords_form_seen_by_B"]) < 2:
-            raise MachineryError("vacuity: B never saw both coordinate forms in %s" % gname)
+        pt = not gname.endswith(("/intr", "/fail"))
+        if pt and ("/table/" in gname or "/jtable/" in gname) and not {0, max(g["table_len_seen_by_B"])} <= set(g["table_len_seen_by_B"]):
+            vacuity.append("B never saw both the empty and the complete table in %s" % gname)
+        if pt and "/scale/" in gname and len(g["coords_form_seen_by_B"]) < 2:
+            vacuity.append("B never saw both coordinate forms in %s" % gname)
         if "+callees" in gname and "inverse_mod" not in g["stopped_in"]:
-            raise MachineryError("vacuity: thread A was never stopped inside a callee (numbertheory.inverse_mod) in %s" % gname)
+            vacuity.append("thread A was never stopped inside a callee (numbertheory.inverse_mod) in %s" % gname)
+        if gname.endswith("/intr") and "Interrupt" not in g["A_ended_with"]:
+            vacuity.append("thread A was never interrupted in %s" % gname)
+        if gname.endswith("/fail") and g["A_ended_with"] != ["AssertionError"]:
+            vacuity.append("the failing multiplication did not fail with AssertionError in %s: %s" % (gname, g["A_ended_with"]))
 
     # ---- C->S: validate (one TLC configuration per table length)
     n_real = len(evs)
@@ -628,28 +916,36 @@ def _lazy_part(rep, tier, wd, J):
     rejected = []
     canaries = {}
     vjobs = []
-    for name in ("tiny", "nist256p"):
+    for name in curves:
         sub = [e for e in events if e["_curve"] == name]
         Nn = sub[0]["n"]
         # canaries: one corrupted field each; own group so that they do not disturb the step relation
         # (built from real events of the expected shape; if the real code never produced such an event - e.g. because it
         #  publishes the table early - the canaries are built from a synthesised well-formed event instead, so that the
         #  real events still reach the specification and are judged there)
-        mids = [e for e in sub if e["mode"] == "table" and 0 < e["loc_len"] < Nn and e["pub_len"] == 0]
+        clean = dict(res_bad=0, f_res_bad=0, blocked=0, pub_ok=True, co_ok=True, loc_ok=True, b_ok=True, b_co_ok=True, f_ok=True,
+                     f_co_ok=True, b_z1=True, f_z1=True, op="pt")
+        can = []
         tab = [e for e in sub if e["mode"] == "table"]
-        mid = mids[0] if mids else dict(tab[0], loc_len=max(1, Nn // 2), pub_len=0, same=False, res_bad=0)
-        sc = [e for e in sub if e["mode"] == "scale"][0]
-        can = [dict(mid, pub_len=mid["loc_len"], same=True, grp="canary1", _want="table-partly-visible"),
-               dict(mid, res_bad=1, grp="canary2", _want="reader-result"),
-               dict(sc, co_ok=False, grp="canary3", _want="coords-mixed"),
-               dict(mid, same=True, grp="canary4", _want="published-before-complete"),
-               dict(sc, f_z1=False, grp="canary5", _want="final-not-scaled")]
+        if tab:
+            mids = [e for e in tab if e["op"] == "pt" and 0 < e["loc_len"] < Nn and e["pub_len"] == 0 and e["blocked"] == 0]
+            mid = mids[0] if mids else dict(tab[0], loc_len=max(1, Nn // 2), pub_len=0, same=False, b_len=Nn, f_len=Nn, z1=True, **clean)
+            can += [dict(mid, pub_len=mid["loc_len"], same=True, grp="canary1", _want="table-partly-visible"),
+                    dict(mid, res_bad=1, grp="canary2", _want="reader-result"),
+                    dict(mid, same=True, grp="canary4", _want="published-before-complete"),
+                    dict(mid, blocked=2, grp="canary6", _want="blocked-forever"),
+                    dict(mid, op="intr", f_res_bad=1, grp="canary7", _want="final-result")]
+        scs = [e for e in sub if e["mode"] == "scale" and e["op"] == "pt"]
+        if scs:
+            sc = dict(scs[0], **clean) if scs[0]["res_bad"] or scs[0]["blocked"] else scs[0]
+            can += [dict(sc, co_ok=False, grp="canary3", _want="coords-mixed"),
+                    dict(sc, f_z1=False, grp="canary5", _want="final-not-scaled")]
         for cn in can:
             tid += 1
             cn["tid"] = tid
             canaries[tid] = cn["_want"]
         vjobs.append((LT_TRACE, "CONSTANT N = %d\nINIT Init\nNEXT Next\n" % Nn, sub + can, os.path.join(wd, "tr_" + name)))
-    with cf.ThreadPoolExecutor(max_workers=2) as ex:
+    with cf.ThreadPoolExecutor(max_workers=3) as ex:
         futs = [ex.submit(tlc.validate_trace, m, cfg, evl, d, shards=NPROC // 2 if len(evl) < 800 else NPROC, by="grp", timeout=1200)
                 for (m, cfg, evl, d) in vjobs]
         for f in futs:
@@ -661,11 +957,9 @@ def _lazy_part(rep, tier, wd, J):
     rej_by = {}
     for x in rejected:
         rej_by.setdefault(x[1], x[2])
-    for t, want in canaries.items():
-        if rej_by.get(t) != want:
-            raise MachineryError("binding self-test: corrupted lazy-table event (expected %s) got verdict %r" % (want, rej_by.get(t)))
     byid = {e["tid"]: e for e in events}
     seen = set()
+    nviol = 0
     for t, clause in rej_by.items():
         if t in canaries:
             continue
@@ -674,18 +968,39 @@ def _lazy_part(rep, tier, wd, J):
         if k in seen:
             continue
         seen.add(k)
-        rep.violation("C20:lazy-%s-%s" % (e["mode"], clause),
-                      "thread A stopped at %s event %d of %s (in %s, line %d) on %s, scenario %s: observation rejected by LazyTable (%s)%s"
-                      % (e["_gran"], e["idx"], "scale" if e["mode"] == "scale" else "_maybe_precompute", e["_in"] or "-", e["_line"],
-                         e["_curve"], e["mode"], clause,
-                         "; wrong: " + ", ".join((e["_bad"] or []) + (e["_fbad"] or [])) if e["_bad"] or e["_fbad"] else ""), e)
+        nviol += 1
+        fn = "scale" if e["mode"] == "scale" else "_maybe_precompute"
+        if e["op"] == "fail":
+            what = "after `generator-without-order * 5` failed (%s) on %s" % (e.get("_a_exc") or "no exception", e["_curve"])
+        elif e["op"] == "intr":
+            what = ("after thread A's operation was interrupted at %s event %d of %s (in %s, line %d) on %s, scenario %s"
+                    % (e["_gran"], e["idx"], fn, e["_in"] or "-", e["_line"], e["_curve"], e["mode"]))
+        else:
+            what = ("thread A stopped at %s event %d of %s (in %s, line %d) on %s, scenario %s"
+                    % (e["_gran"], e["idx"], fn, e["_in"] or "-", e["_line"], e["_curve"], e["mode"]))
+        detail = ""
+        if e["_who"]:
+            detail += "; never finished: " + ", ".join(e["_who"])
+        if e["_bad"] or e["_fbad"]:
+            detail += "; wrong: " + ", ".join((e["_bad"] or []) + (e["_fbad"] or []))
+        rep.violation("C20:lazy-%s%s-%s" % (e["mode"], "" if e["op"] == "pt" else "-" + e["op"], clause),
+                      "%s: observation rejected by LazyTable (%s)%s" % (what, clause, detail), e)
+    # self-tests of the machinery: only a clean run is required to pass them (a deviating library may legitimately
+    # change what the recorder gets to see; it is reported above, through the specification's verdicts)
+    if nviol == 0 and not rep.violations:
+        for t, want in canaries.items():
+            if rej_by.get(t) != want:
+                raise MachineryError("binding self-test: corrupted lazy-table event (expected %s) got verdict %r" % (want, rej_by.get(t)))
+        if vacuity:
+            raise MachineryError("vacuity: " + "; ".join(vacuity))
     total_stats["record_wall_s"] = round(rec_wall, 2)
     total_stats["canaries_rejected"] = len(canaries)
-    rep.add_trace("Trace_LazyTable (thread A stopped at every line / byte code; thread B's complete operations on the same object)",
+    rep.add_trace("Trace_LazyTable (thread A stopped at / interrupted at every line / byte code; thread B's complete operations on the same object)",
                   total_stats, n_real, extra={"groups": groups})
-    pick = [e for e in evs if e["_curve"] == "nist256p" and e["mode"] == "table" and 0 < e["loc_len"] < e["n"]]
+    pick = [e for e in evs if e["_curve"] == "nist256p" and e["mode"] == "table" and e["op"] == "pt" and 0 < e["loc_len"] < e["n"]]
     for e in (pick[len(pick) // 2:len(pick) // 2 + 1] + [x for x in evs if x["mode"] == "scale" and x["_stopped"] and not x["z1"]][-1:]
-              + [x for x in evs if x["_curve"] == "tiny" and x["mode"] == "table" and x["pub_len"] > 0][:1]):
+              + [x for x in evs if x["op"] == "intr" and x["_stopped"] and x["loc_len"] > 0][:1]
+              + [x for x in evs if x["op"] == "fail"][:1]):
         rep.sample(e)
     return n_real
 
@@ -756,9 +1071,10 @@ def replay(path):
     if "idx" in data and "_curve" in data:
         op, deep = data["_gran"] == "opcode", bool(data.get("_deep"))
         K = _count_events(data["_curve"], data["mode"], op, deep)
-        e = _point((data["_curve"], data["mode"], op, deep, True, data["idx"], "replay", 1, K))
+        e = _point({"name": data["_curve"], "mode": data["mode"], "kind": data.get("_kind", "pt"), "opcode": op, "deep": deep, "full": True,
+                    "idx": data["idx"], "grp": "replay", "tid": 1, "K": K, "g": "replay"})
         print(json.dumps(e, indent=1, default=str))
-        bad = e["res_bad"] or e["f_res_bad"] or not (e["pub_ok"] and e["co_ok"] and e["b_ok"] and e["b_co_ok"] and e["f_ok"] and e["f_co_ok"]) \
+        bad = e["blocked"] == 2 or e["res_bad"] or e["f_res_bad"] or not (e["pub_ok"] and e["co_ok"] and e["b_ok"] and e["b_co_ok"] and e["f_ok"] and e["f_co_ok"]) \
             or e["pub_len"] not in (0, e["n"])
         print("REPRODUCED" if bad else "not reproduced")
         return 1 if bad else 0
